@@ -925,7 +925,7 @@ class TransactionBuilder:
 
     def _get_total_key_deposit(self):
         stake_registration_certs = set()
-        stake_registration_certs_with_explicit_deposit = set()
+        stake_registration_certs_with_explicit_deposit = []
         stake_pool_registration_certs = set()
 
         protocol_params = self.context.protocol_param
@@ -944,7 +944,7 @@ class TransactionBuilder:
                         StakeRegistrationAndDelegationAndVoteDelegation,
                     ),
                 ):
-                    stake_registration_certs_with_explicit_deposit.add(cert.coin)
+                    stake_registration_certs_with_explicit_deposit.append(cert.coin)
                 elif (
                     isinstance(cert, PoolRegistration)
                     and self.initial_stake_pool_registration
